@@ -9,6 +9,7 @@ import (
 	"fmt"
 	"io"
 	"os"
+	"path"
 	"path/filepath"
 	"sort"
 	"strings"
@@ -487,7 +488,7 @@ type treeCase struct {
 	Method uint16 // zip compression method for the raw zip
 }
 
-var treeNames = []string{"a.go", "b.go", "go.mod", "LICENSE", "sub/x.go", "sub/deep/y.txt", "A.txt", "a b.txt", "é.go", "-x", "sub/-y", "z/z/z/z", "x  y", hexline, "dir.go/f"}
+var treeNames = []string{".env", "env", ".github/ci.yml", "github/ci.yml", "..x", ".x.", "a.go", "b.go", "go.mod", "LICENSE", "sub/x.go", "sub/deep/y.txt", "A.txt", "a b.txt", "é.go", "-x", "sub/-y", "z/z/z/z", "x  y", hexline, "dir.go/f"}
 
 func genTree(t *rapid.T) treeCase {
 	n := rapid.IntRange(0, 7).Draw(t, "n")
@@ -532,12 +533,16 @@ func genTree(t *rapid.T) treeCase {
 			}
 		}
 	}
-	prefix := []string{"example.com/m@v1.0.0", "m@v1", "p", "github.com/A/b@v0.0.0-20200101000000-abcdefabcdef", "x y"}[rapid.IntRange(0, 4).Draw(t, "prefix")]
+	// (the empty prefix: the names are then the paths relative to the directory, dot files included)
+	prefix := []string{"example.com/m@v1.0.0", "m@v1", "p", "github.com/A/b@v0.0.0-20200101000000-abcdefabcdef", "x y", "", "", ".", ".m@v1"}[gen.Uniform(t, 9, "prefix")]
+	if prefix == "." {
+		prefix = ".hidden/m@v1"
+	}
 	return treeCase{fs, prefix, []uint16{zip.Store, zip.Deflate}[rapid.IntRange(0, 1).Draw(t, "method")]}
 }
 
 func okTree(c treeCase) bool {
-	if !distinctNames(c.Files) || c.Prefix == "" || filepath.Clean(c.Prefix) != c.Prefix || strings.HasPrefix(c.Prefix, "/") || strings.HasPrefix(c.Prefix, "..") {
+	if !distinctNames(c.Files) || c.Prefix != "" && filepath.Clean(c.Prefix) != c.Prefix || strings.HasPrefix(c.Prefix, "/") || strings.HasPrefix(c.Prefix, "..") {
 		return false
 	}
 	for _, f := range c.Files {
@@ -584,7 +589,7 @@ func checkTree(c treeCase) pbt.Result {
 		if err := os.WriteFile(p, f.Content, 0o644); err != nil {
 			panic(err)
 		}
-		prefixed = append(prefixed, file{Name: c.Prefix + "/" + f.Name, Content: f.Content})
+		prefixed = append(prefixed, file{Name: path.Join(c.Prefix, f.Name), Content: f.Content})
 	}
 	want := formula(prefixed)
 	got, err := dirhash.HashDir(root, c.Prefix, dirhash.Hash1)
